@@ -153,6 +153,38 @@ pub fn run_clif(opc: u8) {
     }
 }
 
+/// C09 (Cranelift part): what the function prelude hands to the program - r1 = metadata buffer if it is not
+/// empty, else the packet data, else 0; r10 = top of a private 512-byte stack slot.  Every variable starts
+/// with an arbitrary value, so the prelude has to define them.
+#[kani::proof]
+#[kani::unwind(14)]
+fn clif_prelude() {
+    let exit = ebpf::Insn { opc: 0x95, dst: 0, src: 0, off: 0, imm: 0 };
+    let prog = exit.to_array();
+    let mut init = [0u64; 24];
+    let iv: [u64; 11] = kani::any();
+    let mut j = 0;
+    while j < 11 { init[j] = iv[j]; j += 1; }
+    let mem = SRegion { base: kani::any(), len: kani::any() };
+    let mbuff = SRegion { base: kani::any(), len: kani::any() };
+    let stack_base: u64 = kani::any();
+    kani::assume(mem.base.checked_add(mem.len).is_some() && mbuff.base.checked_add(mbuff.len).is_some() && stack_base.checked_add(512).is_some());
+    // the VM wrappers of lib.rs pass a null pointer for an empty packet (proved in unit vmapi)
+    kani::assume((mem.len == 0) == (mem.base == 0) && stack_base != 0);
+    unsafe { ORACLE = Oracle { load_data: 0, call_ret: 0, params: [mem.base, mem.len, mbuff.base, mbuff.len], stack_base, init_vars: init }; }
+    let helpers: HashMap<u32, ebpf::Helper> = HashMap::new();
+    let r = CraneliftCompiler::new(helpers).compile_function(&prog[..]);
+    assert!(r.is_ok(), "ensures: a program that only exits compiles");
+    let t = unsafe { TRACE };
+    let regs = regs_of(&t.at_srcloc[0]);
+    let clause: u8 = kani::any();
+    match clause {
+        0 => assert!(regs[1] == if mbuff.len != 0 { mbuff.base } else if mem.len != 0 { mem.base } else { 0 }, "ensures: r1 = metadata buffer (metadata VMs), else packet data (raw VMs), else 0 (no data / empty packet)"),
+        1 => assert!(regs[10] == stack_base + 512 && t.stack_slot_size == 512 && t.nstack_slots == 1, "ensures: r10 = top of a private 512-byte stack slot"),
+        _ => assert!(t.block_at_srcloc[0] != u32::MAX && t.naccess == 0 && t.ncalls == 0 && !t.trapped, "ensures: the prelude reaches instruction 0 without touching memory"),
+    }
+}
+
 /// vacuity guard for the environment assumptions of run_clif (they do not depend on the opcode)
 #[kani::proof]
 fn clif_env_precondition_satisfiable() {
